@@ -321,4 +321,29 @@ def run(ctx, st):
             ctx.check('C18/%s@%s' % (k, s), same, '%s: %s / %s' % (name, o1.text if o1.kind == 'text' and not ctx.symbolic else o1.kind,
                                                                    o2.text if o2.kind == 'text' and not ctx.symbolic else o2.kind))
     apply({})
+    _darwin_values(ctx, name, a, o1)
     ctx.reach()
+
+
+def _darwin_values(ctx, name, a, o):
+    """where the tool carries its own table, the names shown carry Darwin's numeric values (socket types, SOL_SOCKET)"""
+    from oracle import darwin as D
+    if o.kind != 'text':
+        return
+    cs = sweep.split_call(o.pieces if ctx.symbolic else [o.text])
+    if not cs.ok:
+        return
+    def lit(k):
+        if k >= len(cs.params):
+            return None
+        return ''.join(x for x in cs.params[k] if isinstance(x, str)).strip() if all(isinstance(x, str) for x in cs.params[k]) else None
+    if name in ('BSC_socket', 'BSC_socketpair', 'BSC_socket_delegate'):
+        t = lit(1)
+        if t is not None and t.startswith('SOCK_'):
+            ctx.check('C18/darwin-values/socket-type', t in D.SOCK and a[1] == D.SOCK.get(t, -1), '%s shown for type word' % t)
+    if name in ('BSC_getsockopt', 'BSC_setsockopt'):
+        t = lit(1)
+        shown = t == 'SOL_SOCKET'
+        is_sol = a[1] == D.SOL_SOCKET
+        ctx.check('C18/darwin-values/SOL_SOCKET', And(Or(Not(shown), is_sol), Or(shown, Not(is_sol))) if ctx.symbolic
+                  else shown == bool(is_sol), 'level shown as %r' % (t,))
